@@ -64,7 +64,7 @@ DIRECT_OPS = ['map', 'starmap', 'filter', 'accumulate', 'slice', 'partition', 'p
 PROFILES = {
     # property -> (node pool, weights of modes, options)
     'C01': dict(pool=SYNC_OPS, collect_cache=True, modes=['loopless', 'loopless', 'async', 'threaded'], md=0.3, sinks=['sync'], feedback=True, forward=True),
-    'C10': dict(pool=SYNC_OPS + ASYNC_LOSSLESS + LOSSY, modes=['loopless', 'async', 'async', 'threaded'], md=0.85, falsy_dedup=True,
+    'C10': dict(collect_md_cache=True, pool=SYNC_OPS + ASYNC_LOSSLESS + LOSSY, modes=['loopless', 'async', 'async', 'threaded'], md=0.85, falsy_dedup=True,
                 sinks=['sync', 'native', 'tornado', 'future']),
     'C02': dict(pool=ASYNC_LOSSLESS + ['map', 'filter', 'zip', 'union', 'accumulate', 'sliding_window', 'partition', 'flatten',
                                         'zip_latest', 'combine_latest', 'collect', 'pluck', 'starmap', 'slice', 'unique'],
@@ -83,7 +83,7 @@ PROFILES = {
     'C08': dict(falsy_dedup=True, pool=['timed_window', 'partition_t', 'timed_window_unique', 'map', 'filter', 'buffer', 'flatten'],
                 need=['timed_window', 'partition_t', 'timed_window_unique'], modes=['async', 'async', 'threaded'], md=0.3,
                 sinks=['native', 'tornado', 'future', 'sync'], bursts=True),
-    'C13': dict(pool=['rate_limit', 'delay', 'map', 'filter', 'union', 'buffer'], need=['rate_limit', 'delay'], stalls=True,
+    'C13': dict(off_grid=True, pool=['rate_limit', 'delay', 'map', 'filter', 'union', 'buffer'], need=['rate_limit', 'delay'], stalls=True,
                 modes=['async', 'async', 'threaded'], md=0.2, sinks=['sync', 'native', 'tornado', 'future'], bursts=True),
     'C14': dict(pool=['latest', 'map', 'filter', 'union'], need=['latest'], feedback_sink=True, modes=['async', 'async', 'threaded'], md=0.4, stalls=True,
                 sinks=['native', 'tornado', 'future', 'sync'], bursts=True),
@@ -370,7 +370,10 @@ class G:
             if not calm:
                 return False
             p = self.pick(calm)
-            self.add({'op': op, 'up': [p], 'interval': self.pick(INTERVALS)}, self.types[p])
+            iv = self.pick(INTERVALS)
+            if op == 'rate_limit' and self.chance(0.1):
+                iv = 0.001        # a 1 kHz cap: waits at the resolution of the loop's timers are waits all the same
+            self.add({'op': op, 'up': [p], 'interval': iv}, self.types[p])
             return True
         if op == 'map_async':
             p = self.pick(anyp)
@@ -457,6 +460,13 @@ class G:
             f = self.add({'op': 'map', 'up': [0], 'fn': ['falsy', self.pick([2, 3]), 0, self.pick([0, 1])]}, ('any', True))
             self.add({'op': 'partition_unique', 'up': [f], 'n': m, 'keep': self.pick(['first', 'last', 'last']), 'key': ['wmod', m]},
                      ('fix', tuple(('any', True) for _ in range(m))))
+        rolling_collect = False
+        if pf.get('collect_md_cache') and self.chance(0.12):
+            # a rolling "last k" collector: caller-supplied bounded caches for the elements and for their metadata
+            # (every element of entry 0 carries exactly one metadata dict, so the two roll in lock-step)
+            k = self.pick([1, 2, 3])
+            self.add({'op': 'collect', 'up': [0], 'cache_maxlen': k, 'md_cache_maxlen': k}, ('var', 0, INT))
+            rolling_collect = True
         feedback = []
         if pf.get('feedback') and self.chance(0.15):
             # feedback template: src -> unique -> map(x -> (x+1, x+2) while x < K) -> flatten -> back into src
@@ -573,6 +583,8 @@ class G:
                 burst = pf.get('bursts') and self.chance(0.5)
                 for k in range(r.randrange(2, n_items_max + 1)):
                     gap = self.pick([0, 0, 0, 0.25]) if burst and self.chance(0.7) else self.pick(GRID)
+                    if pf.get('off_grid') and gap >= 0.25 and self.chance(0.15):
+                        gap -= 0.0005      # just short of a boundary on the grid every interval sits on
                     it = {'gap': gap, 'v': TOKEN_BASE + pid * 1000 + k}
                     if self.chance(pf['md']):
                         it['md'] = self.pick([1, 1, 1, 2])
@@ -584,6 +596,12 @@ class G:
                 producers.append({'entry': e, 'await': aw, 'start': self.pick([0, 0, 0.25, 1]), 'items': items})
         if collects:
             producers[0]['items'].append({'gap': 0, 'flush': self.pick(collects)})
+        if rolling_collect:
+            for p in producers:
+                if p['entry'] == 0:
+                    for it in p['items']:
+                        if 'flush' not in it:
+                            it['md'] = 1
         if mode == 'threaded':
             for p in producers:
                 p['await'] = True          # a blocking emit always waits
